@@ -13,6 +13,7 @@ import PyaModel.Spec.Total
             node = `-` | `n<k>` | `f<line>.<col>`; code = token or `-`; e/detail = `-` (None) | `+` (empty) | code points
     → `EXC` | `-` | `;`-joined `code@line.col:<hash description>:<hash message>:<wellFormed 0|1>`, then ` D=<classes of the calls>`
 `ca <0|1> <e> <a>` `unite <t>…` `subst ((i T)…) <t>` `beq <a> <b>` `heq <a> <b>`   as Driver/Val.lean
+`T <start> <node>…`          runtime type graph, node = `(l c)` | `(a i…)` | `(f target 0|1)` → shape of `tfr liveUnguarded` or `EXC:RecursionError`
 `meas <t>`                     → `<size> <w> <depth>`
 `ubound <t>…`                  → `<|uniteList|> <|flattened operands|> <w (unite)> <1 + wL operands> <members ⊆ flattened 0|1>`
 `sbound ((i T)…) <t>`          → `<w (subst)> <w t * mapBound> <depth (subst)> <depth t + mapDepth> <substF at depth t = subst 0|1>`
@@ -103,6 +104,18 @@ def handleVal (line : String) : String :=
       let old := match oldAnnVisit liveSup e with | .ok _ => "ok" | .raise k => s!"raise:{k}"
       s!"res={if errs.isEmpty then "-" else ",".intercalate errs} old={old}"
     | none => "bad-op"
+  | some (.atom "T" :: .atom start :: nodes) =>
+    -- `T <start> <node>…`  node = `(l c)` | `(a i…)` | `(f t 0|1)`
+    let ns : Option RGraph := nodes.mapM fun (nd : Sexp) => match nd with
+      | .node [.atom "l", .atom c] => c.toNat?.map RNode.leaf
+      | .node (.atom "a" :: is) => (is.mapM fun (i : Sexp) => match i with | .atom x => x.toNat? | _ => none).map RNode.app
+      | .node [.atom "f", .atom t, .atom ev] => t.toNat?.map fun t => RNode.fref t (ev == "1")
+      | _ => none
+    match ns, start.toNat? with
+    | some g, some n =>
+      let fuel := g.length * (g.length + 1) + g.length + 2
+      if tfrDiverges liveUnguarded g fuel [] n then "EXC:RecursionError" else (tfr liveUnguarded g fuel [] n).show
+    | _, _ => "bad-op"
   | some [.atom "ca", .atom x, e, a] =>
     match e.toTy, a.toTy with
     | some e, some a => b2s (ca liveTable (x == "1") e a)
